@@ -8,7 +8,11 @@
       any configuration file.  Where cheap, the behaviour is checked too (sort order, filters, detection switches,
       output directory): the echoed value is the one the analysis used.
  (D2) a file that spells out every key of every section with its documented default must give the same results as
-      no file at all, in both file styles.
+      no file at all, in both file styles; on a project with a .pyi stub also an empty file and a one-key file.
+ (D4) keys whose wiring the translator reads off the code (Cli/ConfigKeysWiring.v: [clones] skip_docstrings and
+      max_edit_distance, [output] format, [dead_code] enabled): model and judgement are evaluated on the Coq instance;
+      [dead_code] detect_*: the kinds of findings reported against reported / switch_of; [dead_code] enabled against
+      --select / --skip-deadcode (dead_code_runs / dead_code_runs_spec).
 """
 import json
 import os
@@ -291,7 +295,7 @@ KEYS = [
     # ---- [dead_code] -----------------------------------------------------------------------------------------------
     Key("dead_code", "min_severity", E, "warning", PNE, "deadcode", None, ["bogus"], rng=(1, 3), domain=SEVS),
     # the file-side counterpart of --skip-deadcode / --select
-    Key("dead_code", "enabled", B, True, PP, "deadcode", dead_code_ran, [False], plumbing=("NotCopied", True), argv=ONLY_DEAD, on_result=True),
+    Key("dead_code", "enabled", B, True, PP, "deadcode", dead_code_ran, [False, True], argv=ONLY_DEAD, on_result=True, coq_key="key_dead_code_enabled"),
     Key("dead_code", "show_context", B, False, PP, "deadcode", path("dead_code", "config", "show_context"), [True]),
     Key("dead_code", "context_lines", I, 3, PP, "deadcode", path("dead_code", "config", "context_lines"), [5, 0, 20, 21, -1], rng=(-BIG, 20)),      # `< 0` is tested on a copy that only takes values > 0 (config.go:330): never refused
     Key("dead_code", "sort_by", E, "severity", PNE, "deadcode", path("dead_code", "config", "sort_by"), ["line", "file", "function", "bogus"],
@@ -477,6 +481,27 @@ def run_bad_config(args):
     return dict(cmd=cmd, how=how, kind=kind, rc=rc, ran=ran, stderr=err[-400:], argv=[cmd] + argv + ["."], config=text)
 
 
+def run_selection_case(args):
+    """does dead code detection run: --select / --skip-deadcode / [dead_code] enabled."""
+    c17, idx, select, skip, filev, root = args
+    d = os.path.join(root, "deadsel%02d" % idx)
+    shutil.rmtree(d, ignore_errors=True)
+    write_files(c17, d, ["deadmod.py", "cxmod.py"])
+    if filev is not None:
+        style = "pyscn" if idx % 2 == 0 else "pyproject"
+        with open(os.path.join(d, ".pyscn.toml" if style == "pyscn" else "pyproject.toml"), "w") as f:
+            f.write(config_text("dead_code", [("enabled", "true" if filev else "false")], style))
+    if select is None:
+        argv = ["--json", "--skip-clones", "--skip-cbo", "--skip-lcom", "--skip-deps"] + (["--skip-deadcode"] if skip else [])
+    else:
+        argv = ["--json", "--select", "complexity,deadcode" if select else "complexity"]
+    rc, out, err = lib.pyscn(["analyze", "--no-open"] + argv + ["."], d, timeout=180)
+    data = c17.read_report(d)
+    shutil.rmtree(d, ignore_errors=True)
+    return dict(rc=rc, ran=None if data is None else data.get("dead_code") is not None, stderr=err[-300:], argv=["analyze", "--no-open"] + argv + ["."],
+                select=select, skip=skip, file=filev)
+
+
 class _NoFile:
     def __repr__(self):
         return "<key absent>"
@@ -559,18 +584,24 @@ class KeySweep:
                 if how == "pyproject.toml" and kind == "syntax":
                     kind, text = BAD_CONFIGS[1]      # an unparsable pyproject.toml is not recognisably pyscn's: skipped like any other
                 self.bjobs.append((c17, len(self.bjobs), cmd, how, kind, text, root))
-        self.ex = self.fut = self.fut_d = self.fut_b = None
+        # (--select: None / names deadcode / does not, --skip-deadcode, [dead_code] enabled: absent / true / false)
+        self.sjobs = [(c17, i, sel, skip, fv, root) for i, (sel, skip, fv) in enumerate(
+            [(None, False, None), (None, False, False), (None, False, True), (None, True, None), (None, True, True), (None, True, False),
+             (True, False, False), (True, False, None), (True, False, True), (False, False, True), (False, False, False), (False, False, None)])]
+        self.ex = self.fut = self.fut_d = self.fut_b = self.fut_s = None
 
     def start(self, workers=8):
         self.ex = ThreadPoolExecutor(max_workers=workers)
         self.fut_d = [self.ex.submit(run_defaults_case, j) for j in self.djobs]
         self.fut = [self.ex.submit(run_key_case, j) for j in self.jobs]
         self.fut_b = [self.ex.submit(run_bad_config, j) for j in self.bjobs]
+        self.fut_s = [self.ex.submit(run_selection_case, j) for j in self.sjobs]
 
     def wait(self):
         impl = [f.result() for f in self.fut]
         self.dres = [f.result() for f in self.fut_d]
         self.bres = [f.result() for f in self.fut_b]
+        self.sres = [f.result() for f in self.fut_s]
         self.ex.shutdown()
         self.res = [impl[self.absent_runs[w[1]]] if w[0] == "absent" else impl[w[1]] for w in self.where]
 
@@ -609,6 +640,9 @@ class KeySweep:
         body = "Eval vm_compute in %s.\n" % clist(terms)
         body += "Eval vm_compute in (%s : list bool).\n" % clist(inst)
         body += "Eval vm_compute in (%s : list (list dead_reason * list dead_reason)).\n" % clist(self.detect_terms())
+        cb = lambda b: "None" if b is None else ("(Some true)" if b else "(Some false)")
+        body += "Eval vm_compute in (%s : list (bool * bool)).\n" % clist(
+            ["run_dead_code_runs %s %s %s" % (cb(r["select"]), "true" if r["skip"] else "false", cb(r["file"])) for r in self.sres])
         return ("C17_keys", REQ, body)
 
     @staticmethod
@@ -643,15 +677,15 @@ class KeySweep:
 
     def decide(self, out):
         ck, c17, cases, res, dres, djobs = self.ck, self.c17, self.cases, self.res, self.dres, self.djobs
-        model = inst = detect = None
+        model = inst = detect = selm = None
         try:
             vals = lib.parse_coq_values(out)
-            model, inst, detect = vals[0], vals[1], vals[2]
+            model, inst, detect, selm = vals[0], vals[1], vals[2], vals[3]
             if len(model) != len(cases):
                 raise RuntimeError("%d values for %d cases" % (len(model), len(cases)))
         except Exception as e:
             ck.broken_ties.append("key sweep: model evaluation failed: %s" % str(e)[-800:])
-            model = inst = detect = None
+            model = inst = detect = selm = None
         if inst is not None:
             for k, same in zip([k for k in KEYS if k.coq_key], inst):
                 if same is not True:
@@ -739,6 +773,32 @@ class KeySweep:
                     elif coq_of(got) != sorted(m_rep):
                         st["tie_bad"] += 1
                         ck.broken_ties.append("key sweep: [dead_code] %s = %s: pyscn reports %s, model Cli/ConfigKeysWiring.v %s" % (k.key, k.toml(v), got, m_rep))
+
+        # ---- does dead code detection run: --select / --skip-deadcode over [dead_code] enabled over the default -------------
+        st["dead_code_selection_cases"] = len(self.sres)
+        if selm is not None and len(selm) == len(self.sres):
+            for r, (m_runs, s_runs) in zip(self.sres, selm):
+                replay = dict(r, files=["deadmod.py", "cxmod.py"], model=m_runs, spec=s_runs,
+                              config=None if r["file"] is None else "[dead_code] enabled = %s" % ("true" if r["file"] else "false"))
+                if r["ran"] is None:
+                    ck.broken_ties.append("key sweep: no report for %s" % " ".join(r["argv"]))
+                elif r["ran"] != s_runs:
+                    e = ck.match_known({"part": "key", "key": "dead_code.enabled", "family": "dead_code.enabled",
+                                        "cell": "absent" if r["file"] is None else ("default" if r["file"] else "nondefault")})
+                    if e and r["ran"] == m_runs:
+                        st["known"] += 1
+                        ck.known_finding(e)
+                    else:
+                        st["spec_bad"] += 1
+                        ck.violation("analyze %s with %s: dead code detection %s, precedence (--select / --skip-deadcode, else the file, else on) says it %s"
+                                     % (" ".join(r["argv"][2:-1]), replay["config"] or "no configuration file", "runs" if r["ran"] else "does not run",
+                                        "runs" if s_runs else "does not run"), replay)
+                elif r["ran"] != m_runs:
+                    st["tie_bad"] += 1
+                    ck.broken_ties.append("key sweep: %s, %s: dead code detection %s, model Cli/ConfigKeysWiring.v says %s"
+                                          % (" ".join(r["argv"]), replay["config"], r["ran"], m_runs))
+        elif selm is not None:
+            ck.broken_ties.append("key sweep: %d dead_code_runs evaluations for %d runs" % (len(selm), len(self.sres)))
 
         # ---- (D3) a configuration file that cannot be loaded ------------------------------------------------------------
         st["unloadable_config_runs"] = len(self.bres)
